@@ -146,6 +146,18 @@ class Fn:
                     out.append((i, j, st[2][1]["q"], st[2][2], st[1]))
         return out
 
+    def adts_built(self):
+        """ADT paths of every struct/enum aggregate constructed in this body (plus `T::new`-style
+        constructor calls are not included: only literal aggregates)."""
+        out = set()
+        for i, b in enumerate(self.blocks):
+            if b.get("cleanup"):
+                continue
+            for st in b["s"]:
+                if st[0] == "=" and st[2][0] == "agg" and st[2][1].get("k") == "adt":
+                    out.add(st[2][1]["adt"])
+        return out
+
     def fn_refs(self):
         """fn items used as values (not as the callee of a call): (bb, q)."""
         out = []
@@ -1241,6 +1253,8 @@ class CallGraph:
         self.out = defaultdict(set)      # q -> set of callee q (local bodies only, expanded)
         self.sites = defaultdict(list)   # callee q (as named at site: q and res) -> [CallSite]
         self.by_name = defaultdict(list)
+        self.packet_edges = set()
+        self._pdw = None
         idx = facts.impl_index()
         for f in facts.fns.values():
             for cs in f.calls:
@@ -1254,6 +1268,12 @@ class CallGraph:
                     self.out[f.q].add(tq)
             for (_, _, cq, _, _) in f.closures_built():
                 self.out[f.q].add(cq)
+            # constructing a work packet may execute its do_work (scheduling edge)
+            for adt in f.adts_built():
+                dq = self._packet_do_work().get(adt)
+                if dq:
+                    self.out[f.q].add(dq)
+                    self.packet_edges.add((f.q, dq))
             for (_, rq, c) in f.fn_refs():
                 for tq in self._expand(rq, c.get("trait"), c.get("res")):
                     self.out[f.q].add(tq)
@@ -1261,6 +1281,17 @@ class CallGraph:
         for a, bs in self.out.items():
             for b in bs:
                 self.inn[b].add(a)
+
+    def _packet_do_work(self):
+        """ADT path -> q of its GCWork::do_work implementation."""
+        if self._pdw is None:
+            d = {}
+            for im in self.facts.impls_of("scheduler::work::GCWork"):
+                for it in im["items"]:
+                    if it["kind"] == "fn" and it["name"] == "do_work":
+                        d[im["self"]] = it["q"]
+            self._pdw = d
+        return self._pdw
 
     def _expand(self, q, trait, res):
         if res:
